@@ -202,6 +202,15 @@ def run(ck, F, E):
                     ok = True
         ck.require(ok, "C18:SEED:randomize", "seeding", "randomize(seed) replaces rng with Rng::new(seed)",
                    "Interpreter::randomize no longer installs Rng::new(seed)", rz.span)
+        # ... for every seed: no returning path skips the store (a "seed 0 is the default anyway" shortcut leaves a generator
+        # that has already drawn numbers where it is)
+        pd = rz.postdominators()
+        from lib import field_stores
+        st = [b for (b, e, sp) in field_stores(F, rz, "rng")]
+        always = any(b == 0 or b in pd.get(0, set()) for b in st)
+        ck.require(always, "C18:SEED:randomize:every-seed", "seeding", "every returning path of randomize stores the new generator",
+                   "Interpreter::randomize installs the new generator only on some paths: for the seeds it filters out the sequence "
+                   "continues from wherever the generator was, so equal seeds no longer give equal sequences", rz.span)
     wz = F.one("JsInterpreter::randomize", "abasic_web")
     if wz is None:
         ck.missing("C18:SEED:web", "abasic_web::JsInterpreter::randomize")
